@@ -852,6 +852,9 @@ MUTANTS = [
     Mutant("shrunk-worker-stays-idle", TEAM, "            self._toShrink -= 1\n            self._idle.remove(worker)\n            worker.quit()", "            self._toShrink -= 1\n            worker.quit()",
            expect_rule="shrink/worker-removed-and-quit"),
     Mutant("onresult-only-on-success", TP, "            if inContext.onResult is not None:  # type: ignore[attr-defined]", "            if inContext.onResult is not None and ok:", expect_rule="threadpool/reported-on-both-outcomes"),
+    # ---- round-3 shapes: the idle pop written EAFP; the task closure and its completion closure built by a private factory as siblings
+    Mutant("eafp-pop-forgets-the-deferred-shrink", TEAM, '            if self._idle:\n                self._idle.pop().quit()\n            else:\n                self._toShrink += 1\n', '            try:\n                spare = self._idle.pop()\n            except KeyError:\n                pass\n            else:\n                spare.quit()\n'),
+    Mutant("factory-built-job-recycles-on-the-worker-thread", TEAM, '        not_none_worker = worker\n        self._busyCount += 1\n\n        @worker.do\n        def doWork() -> None:\n            try:\n                task()\n            except BaseException:\n                self._logException()\n\n            @self._coordinator.do\n            def idleAndPending() -> None:\n                self._busyCount -= 1\n                self._recycleWorker(not_none_worker)\n', '        self._busyCount += 1\n        worker.do(self._jobFor(worker, task))\n\n    def _jobFor(self, worker, task):\n        def backToThePool() -> None:\n            self._busyCount -= 1\n            self._recycleWorker(worker)\n\n        def job() -> None:\n            try:\n                task()\n            except BaseException:\n                self._logException()\n            backToThePool()\n        return job\n'),
 ]
 SILENT = [
     Silent("lambda-instead-of-decorator", TEAM,
@@ -881,4 +884,6 @@ SILENT = [
            "        working = getattr(local, \"working\", None)\n        if working is None:\n            assert lock is not None, \"LockWorker used after quit()\"\n            working = local.working = []\n            working.append(work)\n            lock.acquire()\n            try:\n                while working:\n                    working.pop(0)()\n            finally:\n                lock.release()\n                local.working = None\n        else:\n            working.append(work)\n",
            "        working = getattr(local, \"working\", None)\n        first = working is None\n        if first:\n            assert lock is not None, \"LockWorker used after quit()\"\n            working = local.working = []\n        working.append(work)\n        if not first:\n            return\n        lock.acquire()\n        try:\n            while working:\n                working.pop(0)()\n        finally:\n            lock.release()\n            local.working = None\n"),
     Silent("thread-loop-reflected-sentinel-test", TW, "            for task in smartiter(queue.get, StopThread):\n                task()\n", "            while True:\n                job = queue.get()\n                if StopThread == job:\n                    break\n                job()\n"),
+    Silent("idle-pop-written-eafp", TEAM, '            if self._idle:\n                self._idle.pop().quit()\n            else:\n                self._toShrink += 1\n', '            try:\n                spare = self._idle.pop()\n            except KeyError:\n                self._toShrink += 1\n            else:\n                spare.quit()\n'),
+    Silent("job-and-completion-closures-built-by-a-private-factory", TEAM, '        not_none_worker = worker\n        self._busyCount += 1\n\n        @worker.do\n        def doWork() -> None:\n            try:\n                task()\n            except BaseException:\n                self._logException()\n\n            @self._coordinator.do\n            def idleAndPending() -> None:\n                self._busyCount -= 1\n                self._recycleWorker(not_none_worker)\n', '        self._busyCount += 1\n        worker.do(self._jobFor(worker, task))\n\n    def _jobFor(self, worker, task):\n        def backToThePool() -> None:\n            self._busyCount -= 1\n            self._recycleWorker(worker)\n\n        def job() -> None:\n            try:\n                task()\n            except BaseException:\n                self._logException()\n            self._coordinator.do(backToThePool)\n        return job\n'),
 ]
